@@ -64,6 +64,7 @@ CHECKS = {
         "jobs": [
             job("total", "c16", ["TestC16Total"], 20000, 400000, 1, 6, pending=True),
             job("local", "c16", ["TestC16Local"], 6000, 60000, 2, 10),
+            job("long", "c16", ["TestC16Long"], 25, 250, 2, 6, pending=True),
             job("concurrent", "c16", ["TestC16Concurrent"], 150, 3000, 2, 6, race=True, pending=True),
             job("fuzz", "c16", ["FuzzC16Parse"], 1, 1, 1, 1, fuzz={"target": "FuzzC16Parse", "convert": "TestC16FromFuzzFile", "time": {"quick": 0, "thorough": 240}}),
         ],
